@@ -117,8 +117,21 @@ def run_ops(op, ops):
             op.bulk_insert(t, rows, multiinsert=bool(o.get("multiinsert", True)))
         elif k == "execute":
             op.execute(sa.text(o["text"]) if o.get("as_text") else o["text"])
+        elif k == "autocommit":
+            # the documented way to leave the migration's transaction for a few statements
+            with op.get_context().autocommit_block():
+                run_ops(op, o["ops"])
         else:
             raise ValueError(k)
+
+
+def flat_ops(ops):
+    """all leaf ops, autocommit blocks opened up (document order)"""
+    for o in ops:
+        if o["op"] == "autocommit":
+            yield from flat_ops(o["ops"])
+        else:
+            yield o
 
 
 def render_py(ops):
@@ -144,6 +157,9 @@ def render_py(ops):
             out.append("op.bulk_insert(%s, %s, multiinsert=%r)" % (t, rows, bool(o.get("multiinsert", True))))
         elif k == "execute":
             out.append(("op.execute(sa.text(%r))" if o.get("as_text") else "op.execute(%r)") % o["text"])
+        elif k == "autocommit":
+            out.append("with op.get_context().autocommit_block():")
+            out.extend("    " + l for l in render_py(o["ops"]))
         else:
             raise ValueError(k)
     return out or ["pass"]
